@@ -48,19 +48,20 @@ native_stub("bacpypes.task:_Task.suspend_task", _stub_suspend)
 
 ME = Address("192.168.1.1/24")
 P1, P2 = Address("192.168.2.1/24"), Address("192.168.3.1/24")
-F = [Address("10.0.0.%d" % i) for i in (1, 2, 3)]
+THOROUGH = __import__("os").environ.get("VERIF_TIER") == "thorough"
+F = [Address("10.0.0.%d" % i) for i in (1, 2, 3, 4)]
 LOCAL = Address("192.168.1.7")
 STRANGER = Address("10.9.9.9")
 BDTS = ([], [ME, P1], [P1, ME, P2], [P1, P2])
 
-def BBMD(max_fdt=3):
+def BBMD(max_fdt=None):
     def build(b, name):
         o = object.__new__(BIPBBMD)
         o.__dict__.update(serviceID=None, serviceElement=Tok('bse'), clientID=None, clientPeer=Tok('lower'), serverID=None,
                           serverPeer=OneOf(Tok('upper'), None).build(b, name + '.serverPeer'), bbmdAddress=ME,
                           bbmdBDT=list(BDTS[_choice(b, name + '.bdt', len(BDTS))]),
                           bbmdFDT=[], taskInterval=1000.0, taskTime=None, isScheduled=True)
-        n = _choice(b, name + '.nfdt', max_fdt + 1)
+        n = _choice(b, name + '.nfdt', (max_fdt if max_fdt is not None else (4 if THOROUGH else 3)) + 1)
         for i in range(n):
             e = FDTEntry()
             e.fdAddress = F[i]
@@ -192,7 +193,7 @@ def aged_ok(bbmd, old_view):
 contract("bacpypes.bvllservice:BIPBBMD.process_task",
     params={"self": BBMD()},
     ensures=["aged_ok(self, old(fdt_view(self)))", "len(trace('to_net')) == 0"],
-    modifies=["self.bbmdFDT"] + ["self.bbmdFDT[%d].fdRemain" % i for i in range(3)])
+    modifies=["self.bbmdFDT"] + ["self.bbmdFDT[%d].fdRemain" % i for i in range(4)])
 
 def deleted_ok(bbmd, addr, result, old_view):
     was = [i for i in range(len(old_view)) if old_view[i][0] == addr]
